@@ -164,12 +164,15 @@ def main(tier="quick", logdir=None, select=""):
         tag = "%s%d" % (select, os.getpid())
         f1 = os.path.join(MIRDIR, "elementary.%s.mir" % tag)
         f2 = os.path.join(MIRDIR, "iceoryx2.%s.mir" % tag)
+        only_cal = select.startswith("c08_completion")
         dump_mir("iceoryx2-bb-elementary", "iceoryx2-bb/elementary/src/lib.rs", f1)
-        dump_mir("iceoryx2", "iceoryx2/src/lib.rs", f2)
         fns = M.parse_mir(open(f1).read())
-        fns2 = M.parse_mir(open(f2).read())
         os.remove(f1)
-        os.remove(f2)
+        fns2 = {}
+        if not only_cal:
+            dump_mir("iceoryx2", "iceoryx2/src/lib.rs", f2)
+            fns2 = M.parse_mir(open(f2).read())
+            os.remove(f2)
         for k, v in fns2.items():
             fns.setdefault(k, v)
 
@@ -182,38 +185,39 @@ def main(tier="quick", logdir=None, select=""):
         mt = struct_fields("iceoryx2/src/service/static_config/message_type_details.rs", "MessageTypeDetails")
         B16 = 1 << 16
 
-        # ---------------- C08: sizing formulas ----------------
-        ctx = mk()
-        fn, args, ret, panic = M.summarize(ctx, "publish_subscribe.rs:59:1: 59:18>::required_amount_of_samples_per_data_segment".split(">::")[-1] and ">::required_amount_of_samples_per_data_segment", ["cfg", "loans"])
-        cfg = args[0]
-        subs, buf, bor, hist = [field(cfg, ps, n) for n in ("max_subscribers", "subscriber_max_buffer_size", "subscriber_max_borrowed_samples", "history_size")]
-        loans = args[1].term
-        rng = [lt(x, B16) for x in (subs, buf, bor, hist, loans)]
-        demand = "(bvadd (bvadd (bvmul %s (bvadd %s %s)) %s) %s)" % (subs, buf, bor, hist, loans)
-        jobs.append(("c08_pubsub_samples_no_overflow", ctx.decls, rng + [panic], None, timeout))
-        jobs.append(("c08_pubsub_samples_covers_demand", ctx.decls, rng + ["(bvult %s %s)" % (ret.term, demand)], None, timeout))
+        if not only_cal:
+            # ---------------- C08: sizing formulas ----------------
+            ctx = mk()
+            fn, args, ret, panic = M.summarize(ctx, "publish_subscribe.rs:59:1: 59:18>::required_amount_of_samples_per_data_segment".split(">::")[-1] and ">::required_amount_of_samples_per_data_segment", ["cfg", "loans"])
+            cfg = args[0]
+            subs, buf, bor, hist = [field(cfg, ps, n) for n in ("max_subscribers", "subscriber_max_buffer_size", "subscriber_max_borrowed_samples", "history_size")]
+            loans = args[1].term
+            rng = [lt(x, B16) for x in (subs, buf, bor, hist, loans)]
+            demand = "(bvadd (bvadd (bvmul %s (bvadd %s %s)) %s) %s)" % (subs, buf, bor, hist, loans)
+            jobs.append(("c08_pubsub_samples_no_overflow", ctx.decls, rng + [panic], None, timeout))
+            jobs.append(("c08_pubsub_samples_covers_demand", ctx.decls, rng + ["(bvult %s %s)" % (ret.term, demand)], None, timeout))
 
-        ctx = mk()
-        fn, args, ret, panic = M.summarize(ctx, ">::required_amount_of_chunks_per_client_data_segment", ["cfg", "loans", "active"])
-        servers = field(args[0], rr, "max_servers")
-        loans, active = args[1].term, args[2].term
-        rng = [lt(x, B16) for x in (servers, loans, active)]
-        demand = "(bvadd (bvmul %s (bvadd %s %s)) %s)" % (servers, active, active, loans)
-        jobs.append(("c08_client_chunks_no_overflow", ctx.decls, rng + [panic], None, timeout))
-        jobs.append(("c08_client_chunks_covers_demand", ctx.decls, rng + ["(bvult %s %s)" % (ret.term, demand)], None, timeout))
+            ctx = mk()
+            fn, args, ret, panic = M.summarize(ctx, ">::required_amount_of_chunks_per_client_data_segment", ["cfg", "loans", "active"])
+            servers = field(args[0], rr, "max_servers")
+            loans, active = args[1].term, args[2].term
+            rng = [lt(x, B16) for x in (servers, loans, active)]
+            demand = "(bvadd (bvmul %s (bvadd %s %s)) %s)" % (servers, active, active, loans)
+            jobs.append(("c08_client_chunks_no_overflow", ctx.decls, rng + [panic], None, timeout))
+            jobs.append(("c08_client_chunks_covers_demand", ctx.decls, rng + ["(bvult %s %s)" % (ret.term, demand)], None, timeout))
 
-        ctx = mk()
-        fn, args, ret, panic = M.summarize(ctx, ">::required_amount_of_chunks_per_server_data_segment", ["cfg", "loans"])
-        clients, active, rbuf, rbor = [field(args[0], rr, n) for n in ("max_clients", "max_active_requests_per_client", "max_response_buffer_size", "max_borrowed_responses_per_pending_response")]
-        loans = args[1].term
-        B10 = 1 << 10
-        rng = [lt(x, B10) for x in (clients, active, rbuf, rbor, loans)]
-        demand = "(bvmul (bvmul %s (bvadd %s %s)) (bvadd (bvadd %s %s) %s))" % (clients, active, active, rbuf, rbor, loans)
-        jobs.append(("c08_server_chunks_no_overflow", ctx.decls, rng + [panic], None, timeout))
-        jobs.append(("c08_server_chunks_covers_demand", ctx.decls, rng + ["(bvult %s %s)" % (ret.term, demand)], None, timeout))
+            ctx = mk()
+            fn, args, ret, panic = M.summarize(ctx, ">::required_amount_of_chunks_per_server_data_segment", ["cfg", "loans"])
+            clients, active, rbuf, rbor = [field(args[0], rr, n) for n in ("max_clients", "max_active_requests_per_client", "max_response_buffer_size", "max_borrowed_responses_per_pending_response")]
+            loans = args[1].term
+            B10 = 1 << 10
+            rng = [lt(x, B10) for x in (clients, active, rbuf, rbor, loans)]
+            demand = "(bvmul (bvmul %s (bvadd %s %s)) (bvadd (bvadd %s %s) %s))" % (clients, active, active, rbuf, rbor, loans)
+            jobs.append(("c08_server_chunks_no_overflow", ctx.decls, rng + [panic], None, timeout))
+            jobs.append(("c08_server_chunks_covers_demand", ctx.decls, rng + ["(bvult %s %s)" % (ret.term, demand)], None, timeout))
 
         # ---------------- C03/C08: connection queue sizing (iceoryx2-cal) ----------------
-        if select in ("", "c08_"):
+        if select == "" or select.startswith("c08_"):
             f3 = os.path.join(MIRDIR, "cal.%s.mir" % tag)
             dump_mir("iceoryx2-cal", "iceoryx2-cal/src/lib.rs", f3)
             cal_fns = M.parse_mir(open(f3).read())
@@ -231,57 +235,58 @@ def main(tier="quick", logdir=None, select=""):
             buf = field(args[0], bf, "buffer_size")
             jobs.append(("c08_submission_queue_is_buffer_size", cctx2.decls, [lt(buf, B16), "(not (= %s %s))" % (ret.term, buf)], None, timeout))
 
-        # ---------------- C15: chunk layout arithmetic ----------------
-        def mtd_fields(cfg):
-            h = cfg.get(mt.index("header"), "TypeDetail")
-            u = cfg.get(mt.index("user_header"), "TypeDetail")
-            p = cfg.get(mt.index("payload"), "TypeDetail")
-            g = lambda s, n: s.get(td.index(n), "usize").term
-            return dict(hs=g(h, "size"), ha=g(h, "alignment"), us=g(u, "size"), ua=g(u, "alignment"),
-                        ps=g(p, "size"), pa=g(p, "alignment"))
+        if not only_cal:
+            # ---------------- C15: chunk layout arithmetic ----------------
+            def mtd_fields(cfg):
+                h = cfg.get(mt.index("header"), "TypeDetail")
+                u = cfg.get(mt.index("user_header"), "TypeDetail")
+                p = cfg.get(mt.index("payload"), "TypeDetail")
+                g = lambda s, n: s.get(td.index(n), "usize").term
+                return dict(hs=g(h, "size"), ha=g(h, "alignment"), us=g(u, "size"), ua=g(u, "alignment"),
+                            ps=g(p, "size"), pa=g(p, "alignment"))
 
-        ctx = mk()
-        _f, a1, uh, p1 = M.summarize(ctx, ">::user_header_ptr_from_header", ["mtd", "start"])
-        cfg = a1[0]
-        start = a1[1].term
-        fr = M.Frame(ctx, ctx.func(ctx.find(">::payload_ptr_from_header")), [cfg, a1[1]])
-        pay, p2 = fr.run()
-        n_el = "n_el"
-        ctx.decls.insert(0, (n_el, 64))
-        fr = M.Frame(ctx, ctx.func(ctx.find("message_type_details.rs:147:1: 147:24>::chunk_layout")), [cfg, M.BV(n_el)])
-        lay, p3 = fr.run()
-        fr = M.Frame(ctx, ctx.func(ctx.find(">::all_headers_len")), [cfg])
-        ahl, p4 = fr.run()
-        f = mtd_fields(cfg)
-        MAXLOG = 2 if tier == "quick" else 5
-        SZ = 1 << 12 if tier == "quick" else 1 << 20
-        maxal = "(ite (bvuge (ite (bvuge {ha} {ua}) {ha} {ua}) {pa}) (ite (bvuge {ha} {ua}) {ha} {ua}) {pa})".format(**f)
-        # alignments are instantiated per case (constant power-of-two divisors make the remainder cheap);
-        # sizes, element count and chunk start stay symbolic in every case
-        # the element count is instantiated per case as well: symbolic-by-symbolic 64-bit multiplication
-        # (payload size x element count) is what stalls both solvers; sizes and the chunk start stay symbolic
-        NELS = (0, 1, 2, 3) if tier == "quick" else (0, 1, 2, 3, 5, 8, 100, 255)
-        align_cases = [["(= %s %s)" % (f["ha"], M.bv(1 << a)), "(= %s %s)" % (f["ua"], M.bv(1 << b)), "(= %s %s)" % (f["pa"], M.bv(1 << c)),
-                        "(= %s %s)" % (n_el, M.bv(n))]
-                       for a in range(MAXLOG + 1) for b in range(MAXLOG + 1) for c in range(MAXLOG + 1) for n in NELS]
-        pre = [lt(f["hs"], SZ), lt(f["us"], SZ), lt(f["ps"], SZ), lt(n_el, 1 << (4 if tier == "quick" else 8)), lt(start, 1 << (32 if tier == "quick" else 40)),
-               "(= (bvurem %s %s) %s)" % (start, maxal, M.bv(0))]
-        size, align_ = lay.fields[0].term, lay.fields[1].term
-        paysz = "(ite (= (bvurem {ps} {pa}) {z}) {ps} (bvsub (bvadd {ps} {pa}) (bvurem {ps} {pa})))".format(z=M.bv(0), **f)
-        obligations = [
-            ("c15_chunk_no_overflow", "(or %s %s %s %s)" % (p1, p2, p3, p4)),
-            ("c15_user_header_after_header", "(bvult %s (bvadd %s %s))" % (uh.term, start, f["hs"])),
-            ("c15_user_header_aligned", "(not (= (bvurem %s %s) %s))" % (uh.term, f["ua"], M.bv(0))),
-            ("c15_payload_after_user_header", "(bvult %s (bvadd %s %s))" % (pay.term, uh.term, f["us"])),
-            ("c15_payload_aligned", "(not (= (bvurem %s %s) %s))" % (pay.term, f["pa"], M.bv(0))),
-            ("c15_headers_len_matches_pointer_arithmetic", "(not (= (bvsub %s %s) %s))" % (pay.term, start, ahl.term)),
-            ("c15_layout_align_is_max_alignment", "(not (= %s %s))" % (align_, maxal)),
-            ("c15_layout_size_multiple_of_align", "(not (= (bvurem %s %s) %s))" % (size, align_, M.bv(0))),
-            ("c15_payload_elements_fit_in_chunk", "(bvugt (bvadd %s (bvmul %s %s)) (bvadd %s %s))" % (pay.term, n_el, paysz, start, size)),
-        ]
-        for (nm, neg) in obligations:
-            extra = [] if nm == "c15_chunk_no_overflow" else ["(not (or %s %s %s %s))" % (p1, p2, p3, p4)]
-            jobs.append((nm, ctx.decls, pre + extra + [neg], align_cases, timeout))
+            ctx = mk()
+            _f, a1, uh, p1 = M.summarize(ctx, ">::user_header_ptr_from_header", ["mtd", "start"])
+            cfg = a1[0]
+            start = a1[1].term
+            fr = M.Frame(ctx, ctx.func(ctx.find(">::payload_ptr_from_header")), [cfg, a1[1]])
+            pay, p2 = fr.run()
+            n_el = "n_el"
+            ctx.decls.insert(0, (n_el, 64))
+            fr = M.Frame(ctx, ctx.func(ctx.find("message_type_details.rs:147:1: 147:24>::chunk_layout")), [cfg, M.BV(n_el)])
+            lay, p3 = fr.run()
+            fr = M.Frame(ctx, ctx.func(ctx.find(">::all_headers_len")), [cfg])
+            ahl, p4 = fr.run()
+            f = mtd_fields(cfg)
+            MAXLOG = 2 if tier == "quick" else 5
+            SZ = 1 << 12 if tier == "quick" else 1 << 20
+            maxal = "(ite (bvuge (ite (bvuge {ha} {ua}) {ha} {ua}) {pa}) (ite (bvuge {ha} {ua}) {ha} {ua}) {pa})".format(**f)
+            # alignments are instantiated per case (constant power-of-two divisors make the remainder cheap);
+            # sizes, element count and chunk start stay symbolic in every case
+            # the element count is instantiated per case as well: symbolic-by-symbolic 64-bit multiplication
+            # (payload size x element count) is what stalls both solvers; sizes and the chunk start stay symbolic
+            NELS = (0, 1, 2, 3) if tier == "quick" else (0, 1, 2, 3, 5, 8, 100, 255)
+            align_cases = [["(= %s %s)" % (f["ha"], M.bv(1 << a)), "(= %s %s)" % (f["ua"], M.bv(1 << b)), "(= %s %s)" % (f["pa"], M.bv(1 << c)),
+                            "(= %s %s)" % (n_el, M.bv(n))]
+                           for a in range(MAXLOG + 1) for b in range(MAXLOG + 1) for c in range(MAXLOG + 1) for n in NELS]
+            pre = [lt(f["hs"], SZ), lt(f["us"], SZ), lt(f["ps"], SZ), lt(n_el, 1 << (4 if tier == "quick" else 8)), lt(start, 1 << (32 if tier == "quick" else 40)),
+                   "(= (bvurem %s %s) %s)" % (start, maxal, M.bv(0))]
+            size, align_ = lay.fields[0].term, lay.fields[1].term
+            paysz = "(ite (= (bvurem {ps} {pa}) {z}) {ps} (bvsub (bvadd {ps} {pa}) (bvurem {ps} {pa})))".format(z=M.bv(0), **f)
+            obligations = [
+                ("c15_chunk_no_overflow", "(or %s %s %s %s)" % (p1, p2, p3, p4)),
+                ("c15_user_header_after_header", "(bvult %s (bvadd %s %s))" % (uh.term, start, f["hs"])),
+                ("c15_user_header_aligned", "(not (= (bvurem %s %s) %s))" % (uh.term, f["ua"], M.bv(0))),
+                ("c15_payload_after_user_header", "(bvult %s (bvadd %s %s))" % (pay.term, uh.term, f["us"])),
+                ("c15_payload_aligned", "(not (= (bvurem %s %s) %s))" % (pay.term, f["pa"], M.bv(0))),
+                ("c15_headers_len_matches_pointer_arithmetic", "(not (= (bvsub %s %s) %s))" % (pay.term, start, ahl.term)),
+                ("c15_layout_align_is_max_alignment", "(not (= %s %s))" % (align_, maxal)),
+                ("c15_layout_size_multiple_of_align", "(not (= (bvurem %s %s) %s))" % (size, align_, M.bv(0))),
+                ("c15_payload_elements_fit_in_chunk", "(bvugt (bvadd %s (bvmul %s %s)) (bvadd %s %s))" % (pay.term, n_el, paysz, start, size)),
+            ]
+            for (nm, neg) in obligations:
+                extra = [] if nm == "c15_chunk_no_overflow" else ["(not (or %s %s %s %s))" % (p1, p2, p3, p4)]
+                jobs.append((nm, ctx.decls, pre + extra + [neg], align_cases, timeout))
 
         jobs = [j for j in jobs if j[0].startswith(select)]
         from concurrent.futures import ThreadPoolExecutor
@@ -307,6 +312,8 @@ def main(tier="quick", logdir=None, select=""):
             else:
                 results.append({"query": "validate_align_%d_%d" % (v, a), "status": "inconclusive", "why": "translator disagrees with the known value of align(%d,%d)=%d" % (v, a, exp)})
         # pub-sub formula on the repo's default-like numbers: 8*(2+2)+0+2 = 34
+        if only_cal:
+            raise StopIteration
         c = mk()
         fn, args, ret, panic = M.summarize(c, ">::required_amount_of_samples_per_data_segment", ["cfg", "loans"])
         cfg = args[0]
@@ -318,6 +325,8 @@ def main(tier="quick", logdir=None, select=""):
             vectors_ok += 1
         else:
             results.append({"query": "validate_pubsub_vector", "status": "inconclusive", "why": "translator disagrees with 8*(2+2)+0+2=34"})
+    except StopIteration:
+        pass
     except (M.Unsupported, RuntimeError, KeyError, ValueError, IndexError) as e:
         results.append({"query": "translation", "status": "inconclusive", "why": "MIR translation failed: %r" % (e,)})
         vectors_ok = 0
